@@ -561,6 +561,21 @@ func TestVerif_C18_Gather(t *testing.T) {
 			if !c18NetEnabled(cfg, c.NetworkType()) {
 				fail("C18/sound/network-type-not-enabled", "published %s (%s) but network types are %v", c, c.NetworkType(), cfg.NetTypes)
 			}
+			if cfg.MDNS && c.Type() != CandidateTypeHost {
+				// in mDNS gather mode the local IP is what is being hidden: it must not travel in the related
+				// address of a reflexive or relay candidate either
+				if r := c.RelatedAddress(); r != nil {
+					if rip, err := netip.ParseAddr(r.Address); err == nil && !rip.IsUnspecified() {
+						for _, ifc := range cfg.Ifaces {
+							for _, a := range ifc.Addrs {
+								if la, err := netip.ParseAddr(a); err == nil && la.Unmap() == rip.Unmap() {
+									fail("C18/sound/mdns-local-ip-in-related-address", "mDNS gather mode, but %s carries the local address %s as its related address", c, rip)
+								}
+							}
+						}
+					}
+				}
+			}
 			if cfg.MDNS && c.Type() == CandidateTypeHost {
 				if c.Address() != "verif-host-name.local" {
 					fail("C18/sound/mdns-name-not-used", "host candidate exposes %q in mDNS gather mode", c.Address())
@@ -608,7 +623,8 @@ func TestVerif_C18_Gather(t *testing.T) {
 					fail("C18/sound/port-out-of-range", "host candidate port %d outside %d-%d", c.Port(), cfg.PortMin, cfg.PortMax)
 				}
 			}
-			if c.Type() == CandidateTypeServerReflexive && cfg.Mux != "udp" {
+			// (in mDNS gather mode the related address no longer names the base; the sockets themselves are judged below)
+			if c.Type() == CandidateTypeServerReflexive && cfg.Mux != "udp" && !cfg.MDNS {
 				if r := c.RelatedAddress(); r != nil {
 					if cfg.PortMin != 0 && r.Port < int(cfg.PortMin) || cfg.PortMax != 0 && r.Port > int(cfg.PortMax) {
 						fail("C18/sound/port-out-of-range", "srflx base port %d outside %d-%d", r.Port, cfg.PortMin, cfg.PortMax)
